@@ -63,8 +63,46 @@ func vtValueConverge(writers, writesEach int, label string) {
 
 func VT_C03_ValueOneWriter() { vtValueConverge(1, 2, "last-delivered-value-is-the-final-value") }
 
-func VT_C03_ValueTwoWriters() {
+// thorough: two writers, subscription opened at an arbitrary moment
+func VT_C03_ValueTwoWriters_T() {
 	vtValueConverge(2, 1, "last-delivered-value-is-the-final-value-two-writers")
+}
+
+// quick: two writers started after the subscription is established and seeded (fewer interleavings; the commit /
+// publication reordering of KF-C03-1 does not depend on where the subscription starts)
+func VT_C03_ValueTwoWriters() {
+	v := NewValue(WithInitialValue(&T3{DefaultInt32: 100}))
+	ctx, cancel := context.WithCancel(context.Background())
+	ch := v.Pull(ctx, WithBackpressure(true))
+	<-ch // seed
+	var last int32
+	seen := make(chan struct{})
+	go func() {
+		for e := range ch {
+			x := e.Value.(*T3).DefaultInt32
+			if x == vtSentinel {
+				close(seen)
+				continue
+			}
+			last = x
+		}
+	}()
+	var wg sync.WaitGroup
+	for w := 0; w < 2; w++ {
+		w := w
+		wg.Add(1)
+		go func() {
+			defer wg.Done()
+			v.Set(&T3{DefaultInt32: int32(10 * (w + 1))})
+		}()
+	}
+	wg.Wait()
+	final := v.Get().(*T3).DefaultInt32
+	v.Set(&T3{DefaultInt32: vtSentinel})
+	<-seen
+	vt.AssertKF(last == final, "last-delivered-value-is-the-final-value-two-writers", "KF-C03-1", true)
+	cancel()
+	vt.Reach("done")
 }
 
 // Without backpressure (lossy delivery) and one writer: the subscriber eventually holds the final value
